@@ -3,7 +3,7 @@
    code of reshape.go, flatten.go, squeeze.go, unsqueeze.go, shape.go as repaired), S = the
    ONNX text as written in Check/CheckC07.v (reshape_spec ... shape_spec). *)
 From Coq Require Import List ZArith Bool String.
-From V Require Import DType Tensor Case OpCheck ShapeOps CheckC07 ShapeOpsProofs C07Payload C07Numel C07Numel2 C07Numel3 C07WellFormed.
+From V Require Import DType Tensor Case OpCheck ShapeOps CheckC07 ShapeOpsProofs C07Payload C07Numel C07Numel2 C07Numel3 C07WellFormed C07FlattenAxis.
 Import ListNotations.
 Open Scope Z_scope.
 
@@ -84,6 +84,18 @@ Proof.
   - eapply unsqueeze_wf; eassumption.
 Qed.
 Print Assumptions C07_spec_values_well_formed.
+
+(* "Flatten accepts every axis in [-rank, rank]": S prescribes a value exactly for those axes, both
+   ends included, demands an error for every other axis, and reads a negative axis as axis + rank *)
+Theorem C07_flatten_accepts_exactly axis t :
+  let r := Z.of_nat (List.length (sh t)) in
+  ((exists v, flatten_spec axis t = SMust [Some v]) <-> - r <= axis <= r) /\
+  (~ (- r <= axis <= r) -> flatten_spec axis t = SMustErr).
+Proof. exact (flatten_accepts_iff axis t). Qed.
+Theorem C07_flatten_negative_axis axis t :
+  let r := Z.of_nat (List.length (sh t)) in
+  - r <= axis < 0 -> flatten_spec axis t = flatten_spec (axis + r) t.
+Proof. exact (flatten_negative_axis axis t). Qed.
 
 (* the known-finding class is real: the model (and the code) panic on it *)
 Example C07_shape_rank0_refuted :
